@@ -200,7 +200,7 @@ func CheckHandler(c HCase) *kit.Violation {
 			return kit.Failf("request %d declared=%q Accept=%q: %s", ri, offers, lines, v.Msg)
 		}
 		runs := ran[rq.Op] - before
-		ct := rec.Header().Get("Content-Type")
+		ct := rec.Result().Header.Get("Content-Type")
 		desc := fmt.Sprintf("request %d GET /p%d declared=%q (API default %q) Accept=%q -> status %d, Content-Type %q, body %q, handler ran %d time(s)",
 			ri, rq.Op, offers, c.defaultType(), lines, rec.Code, ct, clipStr(rec.Body.String(), 200), runs)
 		if len(adm) == 0 {
